@@ -29,7 +29,7 @@ import time
 HERE = os.path.dirname(os.path.abspath(__file__))
 VERIF = os.path.dirname(HERE)
 REPO = os.environ.get('LBZ_REPO', '/repo')
-LEAN = os.path.join(VERIF, 'lean')
+LEAN = os.environ.get('LBZ_LEAN') or os.path.join(VERIF, 'lean')
 sys.path.insert(0, HERE)
 
 ALLOWED_AXIOMS = {'propext', 'Quot.sound', 'Classical.choice'}
@@ -424,9 +424,10 @@ run_cmd do
             'wall_s': round(time.time() - self.t0, 2),
             'violations': len(self.violations),
         }
-        os.makedirs(os.path.join(VERIF, 'evidence'), exist_ok=True)
-        with open(os.path.join(VERIF, 'evidence', self.pid + '.json'),
-                  'w') as f:
+        evdir = os.environ.get('LBZ_EVIDENCE_DIR') or \
+            os.path.join(VERIF, 'evidence')
+        os.makedirs(evdir, exist_ok=True)
+        with open(os.path.join(evdir, self.pid + '.json'), 'w') as f:
             json.dump(ev, f, indent=1, default=str)
         if self.violations:
             self.log('FAILED: %d violation(s)' % len(self.violations))
